@@ -102,16 +102,16 @@ fn construct(pre: &Machine, master: bool, known: &Known) -> Option<Machine> {
         }
         _ => return None,
     }
-    if !master {
-        for (a, val) in &known.timer_writes {
-            e.raw_mut().bus_mut().write(*a, *val);
-        }
-    }
     if let Some(u) = known.uart {
         e.raw_mut().bus_mut().write(0xFA, u);
     }
     e.cpu_reset();
     if !master {
+        // timer settings survive a CPU reset: they are programmed *after* the constructed machine's
+        // own reset, so that the expectation does not depend on what cpu_reset does to the timer
+        for (a, val) in &known.timer_writes {
+            e.raw_mut().bus_mut().write(*a, *val);
+        }
         e.set_input_fc(pre.bus().read(0xFC));
         e.set_input_fd(pre.bus().read(0xFD));
         e.set_input_fe(pre.bus().read(0xFE));
@@ -502,13 +502,24 @@ fn program(rng: &mut Rng) -> Image {
             (gen::hazard_program(rng, o), gen::pick_stack(rng))
         }
     };
+    let bytes = odd_length(rng, bytes);
     Image { bytes, stack: if rng.chance(1, 8) { 99 } else { stack }, limit: if rng.bool() { Some(0xFF) } else { None }, keep_limit: rng.chance(1, 8) }
+}
+
+/// image-length extremes: empty, one or two bytes, exactly filling RAM
+fn odd_length(rng: &mut Rng, mut bytes: Vec<u8>) -> Vec<u8> {
+    if rng.chance(1, 10) {
+        let n = *rng.pick(&[0usize, 0, 1, 2, 239, 240]);
+        bytes.resize(n, 0x02);
+    }
+    bytes
 }
 
 fn follow_up(rng: &mut Rng) -> Image {
     // uses only RAM and the FC-FF registers
     let o = HazardOpts { len: 6 + rng.usize(40), wild: false, run_into_io: false, with_ei: false, irq: None };
     let bytes = gen::hazard_program(rng, o);
+    let bytes = odd_length(rng, bytes);
     Image { bytes, stack: *rng.pick(&[0u8, 16, 32, 48, 64, 16, 99]), limit: if rng.bool() { Some(0xFF) } else { None }, keep_limit: rng.chance(1, 6) }
 }
 
